@@ -538,8 +538,31 @@ func body(c *vk.Ctx) {
 	maxDepth := vk.Pick(c, 1, 2)
 	c.Bound("depth_from_seed_states", maxDepth)
 	if c.Replay != "" {
-		c.Broken("replay of C04 cases: re-run the check (the violating record is fully described by its key and 'what')")
-		return
+		// the search is re-run; only the state named in the recorded violation is judged
+		var rf struct {
+			Case struct {
+				Before string `json:"before"`
+			} `json:"case"`
+			What string `json:"what"`
+		}
+		if err := vk.ReadJSON(c.Replay, &rf); err != nil {
+			c.Broken("replay file: %v", err)
+			return
+		}
+		replayCanon = rf.Case.Before
+		if replayCanon == "" {
+			// violations recorded without a case carry the state in their text: "state [<canon>]"
+			if i := strings.Index(rf.What, "state ["); i >= 0 {
+				rest := rf.What[i+len("state ["):]
+				if j := strings.Index(rest, "]"); j >= 0 {
+					replayCanon = rest[:j]
+				}
+			}
+		}
+		if replayCanon == "" {
+			c.Broken("replay file names no state")
+			return
+		}
 	}
 	seeds := seedStates(c.Seed)
 	c.Bound("seed_states", len(seeds))
@@ -612,6 +635,16 @@ func features(a Abs) (f []string) {
 	return
 }
 
+// replayCanon restricts judging to one abstract state (replay of a recorded violation).
+var replayCanon string
+
+func report(c *vk.Ctx, canon, key, what string, rep any) {
+	if replayCanon != "" && canon != replayCanon {
+		return
+	}
+	c.Violation(key, what, rep)
+}
+
 func expand(c *vk.Ctx, sh *shared, n *node, grow bool) (succ []*node) {
 	s := n.sim
 	obs := Observer(s.Seed)
@@ -660,18 +693,18 @@ func expand(c *vk.Ctx, sh *shared, n *node, grow bool) (succ []*node) {
 		accepted++
 		c.Distinct("distinct", canon+"|"+cr.m.Kind+"|"+roleClass(before, cr.m.Author)+"|"+cr.m.Perm+"|"+cr.m.Variant)
 		for _, f := range judge(before, after, []meta{cr.m}) {
-			c.Violation(f.key, fmt.Sprintf("state [%s] reached by %v; crafted record {%s} was accepted: %s; state after [%s]", canon, n.trail, cr.m, f.what, after.Canon()),
+			report(c, canon, f.key, fmt.Sprintf("state [%s] reached by %v; crafted record {%s} was accepted: %s; state after [%s]", canon, n.trail, cr.m, f.what, after.Canon()),
 				map[string]any{"trail": n.trail, "record": cr.m, "before": canon, "after": after.Canon()})
 		}
 		// cross-check: AddRawRecord on a fresh list and a rebuild from the raw log agree with ValidateRawRecord
 		rec := WithId(raw)
 		fresh := s.Full(obs)
 		if err := fresh.AddRawRecord(rec); err != nil {
-			c.Violation("verdict-mismatch:validate-accepts-add-rejects:"+cr.m.Kind, fmt.Sprintf("state [%s]: {%s} accepted by ValidateRawRecord but AddRawRecord says %v", canon, cr.m, err), nil)
+			report(c, canon, "verdict-mismatch:validate-accepts-add-rejects:"+cr.m.Kind, fmt.Sprintf("state [%s]: {%s} accepted by ValidateRawRecord but AddRawRecord says %v", canon, cr.m, err), nil)
 			continue
 		}
 		if got := s.Abstract(fresh.AclState()).Canon(); got != after.Canon() {
-			c.Violation("state-mismatch:add-vs-validate:"+cr.m.Kind, fmt.Sprintf("state [%s]: {%s}: AddRawRecord state [%s] != ValidateRawRecord state [%s]", canon, cr.m, got, after.Canon()), nil)
+			report(c, canon, "state-mismatch:add-vs-validate:"+cr.m.Kind, fmt.Sprintf("state [%s]: {%s}: AddRawRecord state [%s] != ValidateRawRecord state [%s]", canon, cr.m, got, after.Canon()), nil)
 		}
 		ns := s.Fork()
 		ns.Append(rec)
@@ -681,11 +714,11 @@ func expand(c *vk.Ctx, sh *shared, n *node, grow bool) (succ []*node) {
 		}
 		rebuilt, err := ns.View(obs, len(ns.Log), recordverifier.NewValidateFull())
 		if err != nil {
-			c.Violation("verdict-mismatch:rebuild-rejects:"+cr.m.Kind, fmt.Sprintf("state [%s]: {%s} accepted but a list rebuilt from the raw log fails: %v", canon, cr.m, err), nil)
+			report(c, canon, "verdict-mismatch:rebuild-rejects:"+cr.m.Kind, fmt.Sprintf("state [%s]: {%s} accepted but a list rebuilt from the raw log fails: %v", canon, cr.m, err), nil)
 			continue
 		}
 		if got := ns.Abstract(rebuilt.AclState()).Canon(); got != after.Canon() {
-			c.Violation("state-mismatch:rebuild-vs-validate:"+cr.m.Kind, fmt.Sprintf("state [%s]: {%s}: rebuilt state [%s] != ValidateRawRecord state [%s]", canon, cr.m, got, after.Canon()), nil)
+			report(c, canon, "state-mismatch:rebuild-vs-validate:"+cr.m.Kind, fmt.Sprintf("state [%s]: {%s}: rebuilt state [%s] != ValidateRawRecord state [%s]", canon, cr.m, got, after.Canon()), nil)
 		}
 		if grow {
 			sh.mu.Lock()
@@ -755,16 +788,16 @@ func expandBatches(c *vk.Ctx, n *node, l list.AclList, before Abs, canon string)
 				label := fmt.Sprintf("batch[%s ; %s]", r1.m, r2.m)
 				c.Distinct("distinct", canon+"|batch|"+r1.m.Kind+"+"+r2.m.Kind+"|"+roleClass(before, au.Name))
 				if single[i] == nil {
-					c.Violation("batch-accepted-but-first-content-alone-rejected:"+r1.m.Kind+"+"+r2.m.Kind+":author="+roleClass(before, au.Name),
+					report(c, canon, "batch-accepted-but-first-content-alone-rejected:"+r1.m.Kind+"+"+r2.m.Kind+":author="+roleClass(before, au.Name),
 						fmt.Sprintf("state [%s] reached by %v: %s accepted although its first content alone is rejected", canon, n.trail, label), nil)
 					continue
 				}
 				mid := *single[i]
 				for _, f := range judge(before, mid, []meta{r1.m}) {
-					c.Violation("batch:"+f.key, fmt.Sprintf("state [%s] reached by %v; %s accepted; first content: %s", canon, n.trail, label, f.what), nil)
+					report(c, canon, "batch:"+f.key, fmt.Sprintf("state [%s] reached by %v; %s accepted; first content: %s", canon, n.trail, label, f.what), nil)
 				}
 				for _, f := range judge(mid, after, []meta{r2.m}) {
-					c.Violation("batch:"+f.key, fmt.Sprintf("state [%s] reached by %v; %s accepted; second content (from intermediate state [%s]): %s; state after [%s]", canon, n.trail, label, mid.Canon(), f.what, after.Canon()), nil)
+					report(c, canon, "batch:"+f.key, fmt.Sprintf("state [%s] reached by %v; %s accepted; second content (from intermediate state [%s]): %s; state after [%s]", canon, n.trail, label, mid.Canon(), f.what, after.Canon()), nil)
 				}
 			}
 		}
